@@ -2,7 +2,7 @@
 import itertools
 from fractions import Fraction as Fr
 import numpy as np
-from .common import guarded, run_model, rat, rats, rows, rows3, ints, frac, fracs, close, numerator_of, fields
+from .common import F, guarded, run_model, rat, rats, rows, rows3, ints, frac, fracs, close, numerator_of, fields
 from .prng import RecSHA256, Draws
 
 RULE = ("all binary matrices with R in 2..4 raters and Ns in 1..4 items (exhaustive in thorough, sampled in quick) "
@@ -19,6 +19,9 @@ def pairs_oracle(m):
     R, Ns = len(m), len(m[0])
     agree = sum(1 for i in range(Ns) for a in range(R) for b in range(a + 1, R) if m[a][i] == m[b][i])
     return Fr(agree, Ns * R * (R - 1) // 2)
+
+
+ROUND_TRIP_HAZARDS = [(B, k) for B in range(2, 70) for k in range(1, B + 1) if int((k / B) * B) != k]
 
 
 def run(ctx):
@@ -118,6 +121,16 @@ def run(ctx):
         use_p = ctx.rng.random() < 0.3
         obs = [Fr(ctx.rng.randint(0, 8), 8) for _ in range(S)]
         pv = [Fr(ctx.rng.randint(1, 64), 64) for _ in range(S)]
+        if not use_p and ctx.rng.random() < 0.3:
+            # (B, count) pairs whose count does not survive a float round trip, fl(fl(k/B)*B) < k: the count of simulated values
+            # at least as large as the observed one must still be the integer k
+            B, k_ = ctx.rng.choice(ROUND_TRIP_HAZARDS)
+            D = [[Fr(ctx.rng.randint(0, 8), 8) for _ in range(S)] for _ in range(B)]
+            col = [Fr(1)] * k_ + [Fr(0)] * (B - k_); ctx.rng.shuffle(col)
+            j0 = ctx.rng.randrange(S)
+            for i_ in range(B):
+                D[i_][j0] = col[i_]
+            obs[j0] = Fr(1, 2); ctx.count("npcdist-round-trip-hazard")
         Df = np.array([[float(v) for v in r_] for r_ in D]); sz = np.array(size, dtype=float)
         if use_p:
             r = guarded(irr.simulate_npc_dist, Df, sz, None, np.array([float(v) for v in pv]), plus1)
@@ -194,7 +207,7 @@ def hazard_block(ctx):
         if a[0] != "ok" or b[0] != "ok":
             ctx.violation("oracle", {"call": "simulate_ts_dist", "ratings": m.tolist(), "issue": "call failed", "returned": str([a[1:], b[1:]])[:200]}, site="simulate_ts_dist"); continue
         want = int(np.sum(np.array(a[1]["dist"]) >= a[1]["obs_ts"]))
-        exact = sum(1 for v in a[1]["dist"] if Fr(float(v)) >= Fr(c, Ns * R * (R - 1)) or abs(float(v) - c / (Ns * R * (R - 1))) < 1e-12)
+        exact = sum(1 for v in a[1]["dist"] if F(v) >= Fr(c, Ns * R * (R - 1)) or abs(float(v) - c / (Ns * R * (R - 1))) < 1e-12)
         if int(a[1]["geq"]) != want or int(b[1]["geq"]) != want or want != exact:
             ctx.violation("oracle", {"call": "simulate_ts_dist", "ratings": m.tolist(), "num_perm": reps, "seed": seed, "concordant_count": c, "denominator": Ns * R * (R - 1),
                                      "issue": "geq is not the number of simulated values >= the reference (ties with the observed value lost)",
